@@ -256,6 +256,8 @@ ROUTES = {
 
 def extra_checks(rep, tier):
     """structural (syntactic, not deductive): every route of HTTPServer goes through _authorized_route with the documented secrets"""
+    from contracts import grid_http
+    grid_http.grid_check(rep, tier, "C30")
     import os
     from pyvc.harness import SRC
     tree, src = parse_file(os.path.join(SRC, F))
